@@ -1,4 +1,4 @@
 From Coq Require Import Extraction ExtrOcamlBasic NArith.
 From DV Require Import Base.Outcome C13.Gen C13.Model.
 Extraction Language OCaml.
-Extraction "../build/ml/C13/model.ml" c13_bitmap c13_nsec c13_nsec3 c13_hash c13_dedup.
+Extraction "../build/ml/C13/model.ml" c13_bitmap c13_nsec c13_nsec3 c13_hash c13_dedup c13_nsec_t.
